@@ -367,6 +367,20 @@ func c06(r *Run) {
 				r.guarded("C06.R4:hup-offers-input:"+siteKey(w, site), "on hang-up the poller runs the close callbacks itself only after it saw the input buffer empty (or no handler), or after its attempt to start a handler task failed on the processing lock (the running task then offers the input and tears down): winning the lock inside a task's unlock window must not drop input that was delivered while the task still held it", ro.onHup, site, anyAtom(lenZeroFact(true), noHandlerHup, typedNoHandler, taskBusy, stateNone), nil, "guarded by Len()==0 | no handler | onProcess()==false")
 			}
 		}
+		// ... with the handler that is installed when OnConnect has returned: OnConnect may install it itself (SetOnRequest), and
+		// that call's kick is deferred to this task - a task that goes on with the handler it captured before (possibly nil)
+		// leaves the input that arrived meanwhile stranded
+		for _, site := range findIns(ro.task, func(i ssa.Instruction) bool { return userCallbackKind(i) == "OnConnect" }) {
+			reload := func(i ssa.Instruction) bool {
+				a := asAtomic(i)
+				return a != nil && a.Op == "Load" && structFieldOfAddr(a.Addr) == "onEvent.onRequestCallback"
+			}
+			firstUse := func(i ssa.Instruction) bool { return userCallbackKind(i) == "OnRequest" }
+			ss := &Search{Fn: ro.task, Stop: reload}
+			wit := ss.Find([]Start{After(site)}, firstUse, false)
+			r.Visited += ss.Visited
+			r.obW("C06.R5:handler-reloaded-after-onconnect", "after OnConnect returned, the connect task re-reads the installed request handler before it offers input: a handler that OnConnect itself installed (SetOnRequest) is the one that gets the input which arrived while OnConnect ran", ro.task, site, wit, "Load(onRequestCallback) on every path from OnConnect to the first OnRequest invocation")
+		}
 		// the connect task reaches the OnRequest test after OnConnect
 		for _, site := range findIns(ro.task, func(i ssa.Instruction) bool { return userCallbackKind(i) == "OnConnect" }) {
 			isLenRead := func(i ssa.Instruction) bool {
@@ -400,6 +414,10 @@ func c06(r *Run) {
 		for _, site := range findIns(ro.task, func(i ssa.Instruction) bool { return userCallbackKind(i) == "OnConnect" }) {
 			r.guarded("C06.R5:onconnect-once", "OnConnect runs only for the goroutine that moved state none->connected", ro.task, site, callResultAtom(chg, true, stNone, stConn), nil, "guarded by changeState(none,connected)==true")
 		}
+	}
+	// a handler that panics in a later round of the same task must still reach the panic path (C05.R2)
+	if r.keep == nil {
+		r.borrow([]string{"C05.R2:panicked-cleared-only-at-exit"}, "C05.R2", "C06.R6", func() { c05(r) })
 	}
 }
 
